@@ -93,6 +93,15 @@ def build(spec):
             q = _qscalar(v)
             F[i, i] = [q.w, q.x, q.y, q.z]
         A = qalg.from_comps(F)
+    elif g == "perm":
+        # generalised permutation matrix: A[i, p[i]] = unit quaternion phases[i]
+        pidx = spec["p"]
+        n = len(pidx)
+        ph = spec.get("phases") or [[1.0, 0, 0, 0]] * n
+        F = np.zeros((n, n, 4))
+        for i, j in enumerate(pidx):
+            F[i, j] = [float(v) for v in ph[i]]
+        A = qalg.from_comps(F)
     elif g == "blockdiag":
         blocks = [build(b) for b in spec["blocks"]]
         m = sum(b.shape[0] for b in blocks)
@@ -177,6 +186,8 @@ def shape_of(spec):
         return (spec["n"], spec["n"])
     if g == "diagq":
         return (len(spec["vals"]), len(spec["vals"]))
+    if g == "perm":
+        return (len(spec["p"]), len(spec["p"]))
     if g in ("unitvec",):
         return (spec["n"], 1)
     if g == "eigvec":
